@@ -24,8 +24,8 @@ RULE = (
     "non-zero for the non-constant families / storage itself non-zero for the constant family, on "
     ">= 4 pressures; distinct = descriptor hash."
 )
-MIN_NONTRIVIAL = {"quick": 100, "thorough": 1500}
-SHARDS = {"quick": 1, "thorough": 8}
+MIN_NONTRIVIAL = {"quick": 100, "thorough": 9000}
+SHARDS = {"quick": 1, "thorough": 16}
 GENERATOR = {"phi": "0.02..0.35", "Sw": "0..0.4", "So": "0..1-Sw", "densities": "0.1..60", "slopes of 1/B": "1e-7..1e-3 per psi"}
 ASSUMPTIONS = [
     "documented storage function with S_g / b_g in the gas component (three-phase section of "
@@ -52,7 +52,7 @@ def setup(ck):
 
 def generate(ck):
     rng = ck.rng
-    n = 150 if ck.tier == "quick" else 2400
+    n = 150 if ck.tier == "quick" else 15000
     descs = []
     for i in range(n):
         Sw = float(rng.choice([0.0, 0.1, rng.uniform(0, 0.4)]))
